@@ -150,7 +150,7 @@ CHECKS = {
             'them (default HiGHS, Gurobi, OR-Tools GLOP/SCIP, ECOS/ECOS_BB): equal optima, returned vectors checked against the '
             'compiled program (rows, senses, bounds, integrality, cone membership), and no fabricated solution on infeasible/'
             'unbounded programs (NaN objective, x None, get() raises RuntimeError). Sampling, not proof.',
-            'CLP/CPLEX/Mosek/COPT interfaces cannot be exercised (solvers not installed); ECOS_BB only one-sided; ECOS numerical '
+            'CLP/CPLEX/Mosek/COPT interfaces cannot be exercised (solvers not installed); ECOS_BB (integers through ECOS) not exercised (can run for minutes on trivial programs); ECOS numerical '
             'failures on feasible programs skipped; exp-cone programs have a single interface (vector check only).',
             'DESIGN.md section 4 / C11'),
 }
